@@ -32,7 +32,25 @@ type gCase struct {
 	Cache int    `json:"cache,omitempty"`
 	First []int  `json:"first"`
 	Depth int    `json:"depth"`
+	// Faults (C09 only): 1 = after the fault-free run with the latest cutoff, 2 = after every fault-free run that
+	// deleted something: the final vacuum is run again with each single one of its requests failing (before
+	// taking effect; for DELETE and PUT also after taking effect); the connection is then used on, unrefreshed
+	Faults int `json:"faults,omitempty"`
 }
+
+// gFault selects the failing request of the final vacuum.
+type gFault struct {
+	Idx      int  // index among the vacuuming handle's requests during the vacuum
+	Applied  bool // the request takes effect, only the answer is an error
+	AltFresh engine.Rows
+}
+
+// set by the fault-free run of gRunSeq for the worker (a worker runs one sequence at a time)
+var (
+	gVacuumReqs []engine.Req
+	gPostFresh  engine.Rows
+	gDeleted    int
+)
 
 func init() {
 	All["C09"] = &Check{Level: "model_checking", Run: func(r *engine.Run) int { return gRun(r, "c09") }}
@@ -59,6 +77,14 @@ func gRun(r *engine.Run, mode string) int {
 		r.SetBudget(45 * 60 * 1e9)
 	}
 	var cases []json.RawMessage
+	faults := 0
+	if mode == "c09" {
+		faults = 1
+		if r.Thorough() {
+			faults = 2
+		}
+		r.Bounds["vacuum_fault_pass"] = map[string]string{"quick": "latest cutoff", "thorough": "every cutoff whose vacuum deletes something"}[r.Tier]
+	}
 	type cfg struct{ epn, cache int }
 	cfgs := []cfg{{2, 0}, {4096, 0}, {2, 100}}
 	r.Bounds["node_cache_entries"] = []int{0, 100}
@@ -66,9 +92,9 @@ func gRun(r *engine.Run, mode string) int {
 	for _, cf := range cfgs {
 		for a := range gOps {
 			for b := range gOps {
-				cases = append(cases, engine.J(gCase{Mode: mode, EPN: cf.epn, Cache: cf.cache, First: []int{a, b}, Depth: depth}))
+				cases = append(cases, engine.J(gCase{Mode: mode, EPN: cf.epn, Cache: cf.cache, First: []int{a, b}, Depth: depth, Faults: faults}))
 			}
-			cases = append(cases, engine.J(gCase{Mode: mode, EPN: cf.epn, Cache: cf.cache, First: []int{a}, Depth: 1}))
+			cases = append(cases, engine.J(gCase{Mode: mode, EPN: cf.epn, Cache: cf.cache, First: []int{a}, Depth: 1, Faults: faults}))
 		}
 	}
 	n := 0
@@ -93,12 +119,27 @@ func gWorker(raw json.RawMessage) *engine.Result {
 			// the final vacuum: every cutoff relative to every event time
 			ncut := 3 * (len(ops) + 2)
 			for ci := 0; ci < ncut; ci++ {
-				s, ok := gRunSeq(res, c, ops, ci)
+				gVacuumReqs, gDeleted = nil, 0
+				violsBefore := len(res.Viol)
+				s, ok := gRunSeq(res, c, ops, ci, nil)
 				if !ok {
 					break
 				}
 				if s != nil && sample == nil {
 					sample = s
+				}
+				if c.Mode != "c09" || c.Faults == 0 || gDeleted == 0 || (c.Faults == 1 && ci != ncut-1) {
+					continue
+				}
+				if len(res.Viol) > violsBefore {
+					continue // the fault-free vacuum already violates the property here (reported); faults add nothing
+				}
+				reqs, alt := gVacuumReqs, gPostFresh
+				for j, rq := range reqs {
+					gRunSeq(res, c, ops, ci, &gFault{Idx: j, AltFresh: alt})
+					if rq.Op == "DELETE" || rq.Op == "PUT" {
+						gRunSeq(res, c, ops, ci, &gFault{Idx: j, Applied: true, AltFresh: alt})
+					}
 				}
 			}
 		})
@@ -121,7 +162,7 @@ type gModelRow struct {
 
 // gRunSeq runs the events, then vacuum number ci. ok=false when the sequence is pruned (no need to try
 // further cutoffs).
-func gRunSeq(res *engine.Result, c gCase, ops []int, ci int) (interface{}, bool) {
+func gRunSeq(res *engine.Result, c gCase, ops []int, ci int, flt *gFault) (interface{}, bool) {
 	names := make([]string, len(ops))
 	for i, o := range ops {
 		names[i] = gOps[o]
@@ -356,8 +397,106 @@ func gRunSeq(res *engine.Result, c gCase, ops []int, ci int) (interface{}, bool)
 		reclaimedBefore[k] = true
 	}
 	mark := w.B.LogLen()
+	if flt != nil {
+		// ---- the vacuum meets one failing request; the connection lives on ----
+		n, fired := 0, ""
+		w1.H.Fault = func(rq *engine.Req) (engine.FaultMode, error) {
+			n++
+			if n-1 != flt.Idx {
+				return engine.FaultNone, nil
+			}
+			fired = rq.Op + " " + rq.Key
+			if flt.Applied {
+				return engine.ApplyThenFail, engine.ErrTransport
+			}
+			return engine.FailBefore, engine.ErrTransport
+		}
+		verr, err := w1.Vacuum(cut)
+		w1.H.Fault = nil
+		if fired == "" {
+			return nil, true
+		}
+		res.Execs++
+		res.Trans++
+		res.NontrivN++
+		how := "fails"
+		if flt.Applied {
+			how = "is carried out but answered with an error"
+		}
+		where += fmt.Sprintf("; request #%d of the vacuum (%s) %s; vacuum reported: %v %s", flt.Idx, fired, how, err, verr)
+		res.Outcomes = append(res.Outcomes, fmt.Sprintf("failed-vacuum-reported-error=%v", err != nil || verr != ""))
+		own, err := w1.Query(selAll)
+		if err != nil || !own.Equal(preOwn) {
+			viol("c09", "failed-vacuum:vacuuming-connection-rows-changed", "rows on the vacuuming connection (not refreshed): before %v, after the failed vacuum %v (err %v)", preOwn, own, err)
+			return nil, true
+		}
+		desc, err := w1.Query("select a,b,c from {T} where a<=2 order by a desc")
+		if err != nil || !desc.Equal(preDesc) {
+			viol("c09", "failed-vacuum:vacuuming-connection-desc-select", "descending select: before %v, after the failed vacuum %v (err %v)", preDesc, desc, err)
+		}
+		post := w.B.Snapshot()
+		postFresh, err := c04Rows(post, opts, 0)
+		w.MakeCurrent()
+		if err != nil {
+			viol("c09", "failed-vacuum:fresh-reader-fails", "a connection opened after the failed vacuum fails: %v", err)
+			return nil, true
+		}
+		// per key: what a fresh reader saw before, or what it sees after the complete vacuum
+		state := func(rows engine.Rows) map[string]string {
+			m := map[string]string{}
+			for _, r := range rows {
+				m[strings.SplitN(r, "|", 2)[0]] = r
+			}
+			return m
+		}
+		a, b, g := state(preFresh), state(flt.AltFresh), state(postFresh)
+		keys := map[string]bool{}
+		for _, m := range []map[string]string{a, b, g} {
+			for k := range m {
+				keys[k] = true
+			}
+		}
+		for k := range keys {
+			if g[k] != a[k] && g[k] != b[k] {
+				viol("c09", "failed-vacuum:fresh-connection-rows-changed", "key %s: a connection opened after the failed vacuum sees %q; before the vacuum %q, after a complete vacuum %q", k, g[k], a[k], b[k])
+				break
+			}
+		}
+		postCur, _ := engine.Versions(post, lay)
+		for _, n := range postCur {
+			if vd, err := engine.WalkVersion(post, lay, n); err == nil && len(vd.Missing) > 0 {
+				viol("c09", "failed-vacuum:current-version-refers-to-deleted-object", "version %s under root/current refers to deleted objects %v", n, vd.Missing)
+			}
+		}
+		advance()
+		must(w1.Exec("update s3db_conn set write_time=NULL"))
+		e1 := w1.Exec("insert into {T} values(77,'post','vacuum')")
+		rows, e2 := w1.Query("select a from {T} where a=77")
+		if e1 != nil || e2 != nil || len(rows) != 1 {
+			viol("c09", "failed-vacuum:not-writable", "INSERT after the failed vacuum: %v; reading it back: %v %v", e1, rows, e2)
+		} else {
+			f2, err := c04Rows(w.B.Snapshot(), opts, 0)
+			w.MakeCurrent()
+			seen := false
+			for _, r := range f2 {
+				seen = seen || strings.HasPrefix(r, "i77|")
+			}
+			if err != nil || !seen {
+				viol("c09", "failed-vacuum:later-write-not-visible", "a row inserted on the vacuuming connection after the failed vacuum is not visible to a new connection: %v (err %v)", f2, err)
+			}
+		}
+		if len(w.B.Broken) > 0 {
+			viol("c09", "store-invariant", "%v", w.B.Broken)
+		}
+		return nil, true
+	}
 	if !vacuumOK(w1, cut) {
 		return nil, true
+	}
+	for _, rq := range w.B.LogSince(mark) {
+		if rq.Client == "w1" {
+			gVacuumReqs = append(gVacuumReqs, rq)
+		}
 	}
 	res.Execs++
 	res.Trans++
@@ -372,6 +511,7 @@ func gRunSeq(res *engine.Result, c gCase, ops []int, ci int) (interface{}, bool)
 	if deleted > 0 {
 		res.NontrivN++
 	}
+	gDeleted = deleted
 	res.Outcomes = append(res.Outcomes, fmt.Sprintf("deleted>0=%v", deleted > 0))
 	post := w.B.Snapshot()
 	// ---------- C09 ----------
@@ -397,6 +537,7 @@ func gRunSeq(res *engine.Result, c gCase, ops []int, ci int) (interface{}, bool)
 		}
 	}
 	postFresh, err := c04Rows(post, opts, 0)
+	gPostFresh = postFresh
 	w.MakeCurrent()
 	if err != nil {
 		viol("c09", "fresh-reader-fails-after-vacuum", "a connection opened after the vacuum fails: %v", err)
